@@ -385,11 +385,11 @@ def work(unit):
     else:
         above = {path: idx for idx, kind, path, ek in sl if kind == 'above'}
         for idx, kind, path, ek in sl:
-            if kind == 'eol' and path in above and ek in ('ref', 'table.idx', 'enum.item'):
+            if kind == 'eol' and path in above and ek in ('ref', 'table.idx', 'enum.item', 'table.col'):
                 for fa in ('line', 'blockline'):
                     for fe in ('trail', 'block'):
                         check_pair(p, bi, above[path], idx, path, fa, fe)
-        p['samples'].append({'base': bases()[bi][0], 'pairs': 'above + trailing on every reference, index and enum item'})
+        p['samples'].append({'base': bases()[bi][0], 'pairs': 'above + trailing on every reference, index, enum item and column'})
     return p
 
 
